@@ -3,10 +3,11 @@ import numpy as np
 
 
 class IBM:
-    def __init__(self, modules, kill=None, age=False, log=None, kill_t0=None, **kw):
+    def __init__(self, modules, kill=None, age=False, log=None, kill_t0=None, swim=None, **kw):
         self.modules = modules
         self.kill = kill or {}
         self.age = age
+        self.swim = swim  # if given: look up lon/lat of the particles (as a light model would), then move them by `swim` cells in X, in place
         self.kill_t0 = kill_t0  # if given, the kill table is keyed by absolute step (time - kill_t0) / dt
         self.closed = 0
         self.calls = []
@@ -21,6 +22,10 @@ class IBM:
             self.log.append(("ibm", step, list(state.pid), list(state.X), list(state.alive)))
         if self.age:
             state["age"] = state.age + timer.dt / np.timedelta64(1, "s")
+        if self.swim is not None and len(state.X):
+            lon, lat = self.modules["grid"].xy2ll(state.X, state.Y)
+            self.last_lonlat = (lon, lat)
+            state.X[:] = state.X + self.swim  # in place, as examples/gosouth does
         key = step if self.kill_t0 is None else int((timer.time - self.kill_t0) // timer.dt)
         flags = self.kill.get(key)
         if flags and len(state.X):
